@@ -215,7 +215,7 @@ pub trait TypedIterable {
                     new_packet_len,
                     (offset as isize + shift) as usize + (packet_len - offset)
                 );
-                packet.copy_within(offset..offset + packet_len, offset + shift as usize);
+                packet.copy_within(offset..packet_len, offset + shift as usize);
             } else if shift < 0 {
                 let shift = (-shift) as usize;
                 assert!(packet_len >= shift);
